@@ -12,7 +12,7 @@ from vlib.gen import make_r_fmt, make_r_sub, r_dynw, r_fold, r_enumerate, r_muts
 
 QB = "src/backend/query_builder.rs"
 P = ["C01"]
-OPAQUE = ["Value", "ColumnRef", "Function", "SubQueryOper", "SubQueryStatement", "Keyword", "DynIden", "Condition"]
+OPAQUE = ["Value", "ColumnRef", "Function", "SubQueryOper", "SubQueryStatement", "Keyword", "DynIden", "Condition", "OrderExpr"]
 r_fmt = make_r_fmt(wmap=lambda w: w)
 r_vis = make_r_sub("R-vis", r"pub\(crate\) ", "pub ", min_count=0)
 V = "final(sql).vals() == old(sql).vals()"
@@ -72,6 +72,10 @@ def build(u):
     u.type_item("src/query/case.rs", "struct", "CaseStatement", props=P, rules=[r_vis])
     u.type_item("src/expr.rs", "enum", "SimpleExpr", props=P)
     u.type_item("src/backend/mod.rs", "enum", "Oper", props=P)
+    u.type_item("src/query/window.rs", "enum", "Frame", props=P)
+    u.type_item("src/query/window.rs", "enum", "FrameType", props=P)
+    u.type_item("src/query/window.rs", "struct", "FrameClause", props=P, rules=[r_vis])
+    u.type_item("src/query/window.rs", "struct", "WindowStatement", props=P, rules=[r_vis])
     u.prelude_file("units/exprvals/spec.rs", props=P)
     u.emit("impl SimpleExpr {\n")
     u.fn("src/expr.rs", "impl SimpleExpr", "is_binary", ret="r", rules=[r_vis], props=P, spec="ensures r == (self is Binary),")
@@ -168,6 +172,23 @@ def build(u):
                  "before#1:let mut first = true;": "proof { assert(v0 + list@.subrange(0, 0) =~= v0); }",
                  "loop1-end": "proof { assert(list@.subrange(0, it1.index@ + 1) =~= list@.subrange(0, it1.index@ as int).push(*val)); }",
                  "body-end": "let ghost se_ = *simple_expr;\nproof { match se_ { SimpleExpr::Values(l) => { assert(l@.subrange(0, l@.len() as int) =~= l@); } _ => {} } assert(sql.vals() =~= v0 + expr_vals(*simple_expr)); }"})
+    # ---- window specifications (OVER (..) / WINDOW w AS ..): the frame's numeric offsets are BOUND values --------------------------
+    u.spec(abstract("prepare_order_expr", "x: &OrderExpr", "final(sql).vals() == old(sql).vals() + order_vals(*x)"), "exprvals::abstract-callees(window)", props=P)
+    u.fn(QB, "trait QueryBuilder", "prepare_frame", props=P, key="QueryBuilder::prepare_frame", vpath="AnyQB::prepare_frame",
+         rules=[r_dynw, r_fmt, make_r_sub("R-into", r"&v\.into\(\)", "&vvalue_u32(v)", min_count=2)],
+         spec="ensures\n    // a numeric frame offset is bound like any other value (one placeholder in parameterised mode)\n    final(sql).vals() == old(sql).vals() + frame_vals(*frame),",
+         proofs={"body-start": "let ghost v0 = sql.vals();", "body-end": "proof { assert(sql.vals() =~= v0 + frame_vals(*frame)); }"})
+    u.fn(QB, "trait QueryBuilder", "prepare_window_statement", props=P, key="QueryBuilder::prepare_window_statement", vpath="AnyQB::prepare_window_statement",
+         rules=[r_dynw, r_fold, r_fmt],
+         spec="ensures final(sql).vals() == old(sql).vals() + window_vals(*window),",
+         loops=["invariant it1.index@ <= window.partition_by@.len(), sql.vals() == v0 + exprs_vals(window.partition_by@, it1.index@ as nat),",
+                "invariant it2.index@ <= window.order_by@.len(), sql.vals() == v1 + orders_vals(window.order_by@, it2.index@ as nat),"],
+         proofs={"body-start": "let ghost v0 = sql.vals();\nproof { assert(v0 + Seq::<Value>::empty() =~= v0); }",
+                 "loop1-end": "proof { lemma_exprs_vals_step(window.partition_by@, it1.index@ as int); assert(sql.vals() =~= v0 + exprs_vals(window.partition_by@, (it1.index@ + 1) as nat)); }",
+                 "before#1:if !window.order_by.is_empty()": "let ghost v1 = sql.vals();\nproof { assert(v1 =~= v0 + exprs_vals(window.partition_by@, window.partition_by@.len())); assert(v1 + Seq::<Value>::empty() =~= v1); }",
+                 "loop2-end": "proof { assert(sql.vals() =~= v1 + orders_vals(window.order_by@, (it2.index@ + 1) as nat)); }",
+                 "before#1:if let Some(frame) = &window.frame": "let ghost v2 = sql.vals();\nproof { assert(v2 =~= v1 + orders_vals(window.order_by@, window.order_by@.len())); }",
+                 "body-end": "proof { assert(sql.vals() =~= v0 + window_vals(*window)); }"})
     u.emit("}\n")
 
     # ---- the three backends' dispatching entry points, against the induction hypothesis's own statement --------------------------
